@@ -12,10 +12,13 @@ CFG = dict(
     case_type="c09case",
     find_bad_from="Check.C09c.find_bad_from",
     go_tags="cl",
-    rigs=[dict(test="TestC09", timeout_quick=300, timeout_thorough=900)],
+    rigs=[dict(test="TestC09", timeout_quick=300, timeout_thorough=900),
+          dict(test="TestC09Errors", timeout_quick=200, timeout_thorough=400),
+          dict(test="TestC09Storm", timeout_quick=300, timeout_thorough=900)],
     reason_text={"1": "the real client's observation differs from every outcome of the Gallina model (Model/Client.v, all orders of internal rules)",
                  "3": "a unary call's result is not what the first delivered envelope carrying its id says",
-                 "5": "fabricated success: a call reported a success whose body no delivered envelope with its id carried",
+                 "5": "fabricated success: a call reported a success whose body no delivered envelope with its id carried; or, after the "
+                      "transport's read failure and without any trailer, a stream reported a message / a clean end (io.EOF) / a retried call succeeded",
                  "6": "hang: an operation is still pending at a quiescent point after the read loop died although no caller is parked",
                  "7": "a call started after the read loop died did not fail at once (it wrote to the transport or did not return)",
                  "8": "panic"},
@@ -23,7 +26,13 @@ CFG = dict(
          "unread stream, unary+stream, 2 unary+stream, 3 streams) x a read failure after EVERY prefix of the response sequence x {writes "
          "fail, writes succeed} x {no caller, a unary caller, a stream opener} parked at the mux.checked yield point and released after "
          "the failure x afterwards RecvMsg/SendMsg/Header/CloseSend/Trailer on every stream and a unary call + a stream started after the "
-         "failure; plus RecvMsg parked at cs.recv.checked x failure; pending operations and goroutine census observed at every quiescent point",
+         "failure; plus RecvMsg parked at cs.recv.checked x failure; pending operations and goroutine census observed at every quiescent point; (b) TestC09Errors: a stream (Header, RecvMsg) and a unary "
+         "call in flight x the transport's Read failing with 8 error VALUES (plain, io.EOF, wrapped EOF, a websocket-style EOF text, "
+         "io.ErrUnexpectedEOF, context.Canceled, context.DeadlineExceeded, a gRPC status error) after 0..2 response envelopes and no "
+         "trailer: every later RecvMsg / Header / Invoke must return a non-EOF error; (c) TestC09Storm: retry storms inside a bubble "
+         "with real parallelism: 3000 (thorough 3000 x 12 rounds) unary calls and streams in flight, the read fails, every caller "
+         "retries once the moment its call fails (the window INSIDE closeError); at quiescence (exact, no timeout) no retry may be "
+         "pending and none may have succeeded",
     assumptions=["a transport whose Write blocks for ever without honouring its context is outside the hypothesis",
                  "quiescence = testing/synctest's durable blocking; a hang is an exact observation, not a timeout"],
 )
